@@ -11,6 +11,7 @@ use crate::corpus::{join_stream, yaml_stream};
 use crate::ev::{self, Acc, Ctx, Finish, Violation};
 use crate::fmts::{self, Fmt};
 use crate::gen::{gen_doc, gen_scalar, Classes, GenOpts};
+use crate::known;
 use crate::model::{hex, preview, toml_match, unhex, Val};
 use crate::mon::{MonWriter, Sched};
 use crate::rng::Rng;
@@ -231,6 +232,10 @@ pub fn judge(calls: &[Call], docs: &[Vec<DocSpec>], short_seed: Option<u64>, acc
         match (&expect_err, v) {
             (Some(why), Verdict::Ok) if !free => {
                 vio(format!("accepted what must be refused: {}", why.split(';').next().unwrap_or("")), format!("call {ci} returned Ok; output so far [{}]", preview(&wlog.bytes, 200)), why.clone(), acc);
+                return;
+            }
+            (None, Verdict::Err(_)) if !free && known::read_ahead_failure("C08", calls[ci].from.is_none(), !matches!(calls[ci].mode, Mode::Slice), &calls[ci].input) => {
+                acc.known("C09-yaml-trial-depends-on-read-ahead", || format!("call {ci} ({}) input [{}]: {}", calls[ci].mode.describe(), preview(&calls[ci].input, 50), v.show()));
                 return;
             }
             (None, Verdict::Err(e)) if !free => {
